@@ -39,6 +39,27 @@ pub fn norm_cmap(w: &write_fonts::tables::cmap::Cmap, back: &mut write_fonts::ta
     }
 }
 
+/// IFT table keyed patch: each `TablePatch.brotli_stream` extends to the end of the data
+pub fn norm_tkp(w: &write_fonts::tables::ift::TableKeyedPatch, back: &mut write_fonts::tables::ift::TableKeyedPatch) {
+    for (a, b) in w.patches.iter().zip(back.patches.iter_mut()) {
+        if b.brotli_stream.len() > a.brotli_stream.len() && b.brotli_stream.starts_with(&a.brotli_stream) {
+            let n = a.brotli_stream.len();
+            b.brotli_stream.truncate(n);
+        }
+    }
+}
+
+/// IFT format 2 patch map: `MappingEntries.entry_data` extends to the end of the data (the id string data follows)
+pub fn norm_ift(w: &write_fonts::tables::ift::Ift, back: &mut write_fonts::tables::ift::Ift) {
+    use write_fonts::tables::ift::Ift;
+    if let (Ift::Format2(a), Ift::Format2(b)) = (w, back) {
+        let n = a.entries.entry_data.len();
+        if b.entries.entry_data.len() > n && b.entries.entry_data.starts_with(&a.entries.entry_data) {
+            b.entries.entry_data.truncate(n);
+        }
+    }
+}
+
 mod corpus;
 mod gen;
 mod walk;
